@@ -84,7 +84,7 @@ theorem block_recovered (O : Oracle) (b : SBlock) (h : b.WF O) :
   parseDecls_block O b h
 
 /-- the selector list alone (`SelectorList._setSelectorText`): the groups are recovered -/
-theorem selector_groups_recovered (s : SSel) (h : s.WF) : (selGroups s.toks).map trim = s.erase :=
+theorem selector_groups_recovered (s : SSel) (h : s.WF) : (selGroups s.toks).map clean = s.erase :=
   selGroups_render s h
 
 /-! non-vacuity: `a , /*c*/ b { COLOR /*x*/ : red ! IMPORTANT ; ; /*k*/ top : 0 }  @x y ;` -/
